@@ -676,6 +676,8 @@ compact_theta_sketch_alloc<A> compact_theta_sketch_alloc<A>::deserialize_v4(
 {
   const auto entry_bits = read<uint8_t>(is);
   const auto num_entries_bytes = read<uint8_t>(is);
+  if (entry_bits > 63) throw std::invalid_argument("Possible corruption: entry bits: " + std::to_string(entry_bits));
+  if (num_entries_bytes > sizeof(uint32_t)) throw std::invalid_argument("Possible corruption: number of bytes for the entry count: " + std::to_string(num_entries_bytes));
   const auto flags_byte = read<uint8_t>(is);
   const auto seed_hash = read<uint16_t>(is);
   const bool is_empty = flags_byte & (1 << flags::IS_EMPTY);
